@@ -353,9 +353,9 @@ def explore(space, tier, seed, chunk_size=None, budget_s=None):
         f"nontrivial={cov['distinct_nontrivial']} outcomes={cov['outcomes']} violations={nviol} known={len(printed_known)} "
         f"capped={capped} recheck={memo_conf['identical']}/{memo_conf['cases']} wall={wall:.1f}s"
     )
-    if nondet:
-        return 3
-    return 1 if nviol else 0
+    if nviol:
+        return 1  # a violation is a violation even when the tree under test also behaves differently from process to process
+    return 3 if nondet else 0
 
 
 def replay(space, path):
@@ -605,6 +605,6 @@ def explore_bfs(space, tier, seed):
         f"nontrivial={len(nontrivial)} violations={nviol} known={len(printed_known)} capped={capped} "
         f"recheck={recheck['identical']}/{recheck['cases']} wall={wall:.1f}s"
     )
-    if nondet:
-        return 3
-    return 1 if nviol else 0
+    if nviol:
+        return 1  # a violation is a violation even when the tree under test also behaves differently from process to process
+    return 3 if nondet else 0
